@@ -57,6 +57,9 @@ def prepare(flexdir, case, workdir, san=False):
             case.warn_default = True
         if "dangerous trailing context" in line:
             case.dangerous = True
+    if case.cfg.get("tablesfile"):
+        case.T = None; case.status = "ok"     # tables live in the file: no in-code arrays to dump
+        return case
     try:
         T = scanner.dump_tables(g["exe"])
     except Exception as e:  # noqa
